@@ -69,10 +69,20 @@ def corrupt_table_zero_slot(run):
 
 
 def corrupt_table_sum(run):
-    """a normalised table whose slots do not add up to the table size"""
+    """a normalised table whose slots exceed the table size (ranges would leave the table)"""
     for e in run:
-        if e.get("op") == "table" and len(e.get("sym", [])) >= 1 and e["total"] > 0:
-            e["total"] = e["total"] + 1
+        if e.get("op") == "table" and len(e.get("sym", [])) >= 1 and e["total"] > 1:
+            e["total"] = e["total"] - 1
+            return run
+    return None
+
+
+def corrupt_table_start(run):
+    """a normalised table in which two slot ranges overlap (start of the second symbol moved down by one)"""
+    for e in run:
+        if e.get("op") == "table" and len(e.get("sym", [])) >= 2 and e["norm"][0] > 0 and e["norm"][1] > 0:
+            e["start"] = list(e["start"])
+            e["start"][1] -= 1
             return run
     return None
 
@@ -147,7 +157,8 @@ def run(ctx):
     ctx.selftest_corrupt(TRACE, rans, corrupt_decode_len, "decoded payload one byte shorter")
     ctx.selftest_corrupt(TRACE, rans, corrupt_decode_error, "successful matching decode turned into an error")
     ctx.selftest_corrupt(TRACE, rans, corrupt_table_zero_slot, "normalised table: a present symbol set to 0 slots")
-    ctx.selftest_corrupt(TRACE, rans, corrupt_table_sum, "normalised table: slots do not add up to the table size")
+    ctx.selftest_corrupt(TRACE, rans, corrupt_table_sum, "normalised table: more slots than the table holds")
+    ctx.selftest_corrupt(TRACE, rans, corrupt_table_start, "normalised table: two slot ranges overlap")
     ctx.selftest_corrupt(TRACE, huff, corrupt_codes_prefix, "code table: one code made a prefix of another")
     ctx.selftest_corrupt(TRACE, ctxo1 or huff, corrupt_codes_missing, "code table: a symbol that must be codable removed")
     # --- evidence
@@ -167,6 +178,14 @@ def run(ctx):
     cov["payload_bytes"] = tot("payload_bytes")
     cov["skipped_payloads"] = tot("skipped_payloads")
     cov["crashes"] = s1.get("crashes", [])
+    # mechanism observation (never a verdict): real tables that leave slots unused - FreqNorm!SumIsTotal is what the
+    # design promises (MC_FreqNorm: DoneSumIsTotal), losslessness only needs FreqNorm!SlotsFit
+    under = {}
+    for p in files:
+        for e in vlib.read_ndjson(p):
+            if e.get("op") == "table" and sum(e["norm"]) < e["total"]:
+                under[e["c"]] = under.get(e["c"], 0) + 1
+    cov["real_tables_underfull_by_subject"] = under
     cov["events"] = s1.get("events", 0)
     cov["vacuous_subjects"] = sorted(n for n, d in subs.items() if int(d.get("roundtrips_nontrivial", 0)) == 0)
     if not subs or cov["decodes_judged"] == 0:
@@ -215,7 +234,7 @@ def replay(ctx, path):
     ctx.tier = rep.get("tier", ctx.tier)
     ctx.seed = rep.get("seed", ctx.seed)
     extra = {"threads": 1}
-    if "sess" in reset and reset.get("mode") != "crash":
+    if "sess" in reset:
         extra["only"] = reset["sess"]
     s = ctx.harness(BIN, "drive", "rp", subject=subj, extra=extra, timeout=3300)
     files = sorted(glob.glob(os.path.join(s["_out"], "*.ndjson")))
